@@ -87,8 +87,33 @@ def _do_load(op, profile=False):
 
 def _do_load_inner(op, ctx, data, how, name, flag0):
     obj = None
+    src = None
+    if how in ("clone", "clone_module"):
+        # the load under test is the one *inside* clone(): first obtain the object fault-free
+        try:
+            pre = Ctx(())
+            with active(pre):
+                src = read_sunvox_file(pre.new_stream(data, "arg"))
+        except (KeyboardInterrupt, HarnessTimeout):
+            raise
+        except BaseException:
+            src = None
+        env.LOG.take()
+        rv.errors.RAISE_CONTROLLER_VALUE_ERRORS = flag0
+        if src is None or (how == "clone_module" and type(src).__name__ != "Synth"):
+            how = "file"
+        else:
+            ctx.scratch = True
     with active(ctx):
         try:
+            if how == "clone":
+                obj = src.clone()
+                exit_ = "return:" + type(obj).__name__
+                return ctx, flag0, rv.errors.RAISE_CONTROLLER_VALUE_ERRORS, exit_, obj
+            if how == "clone_module":
+                obj = src.module.clone()
+                exit_ = "return:" + type(obj).__name__
+                return ctx, flag0, rv.errors.RAISE_CONTROLLER_VALUE_ERRORS, exit_, obj
             if how == "file":
                 arg = ctx.new_stream(data, "arg")
             elif how == "str":
@@ -223,9 +248,9 @@ def profile(spec, how):
     env.LOG.take()
     per = {}
     for sid, call, arg, pos in ctx.calls:
-        per.setdefault(sid, {"read": [], "seek": [], "tell": [], "close": []})[call].append(arg)
-    sizes = {s.sid: len(s.data) for s in ctx.streams}
-    datas = {s.sid: s.data for s in ctx.streams}
+        per.setdefault(sid, {"read": [], "seek": [], "tell": [], "close": [], "write": []})[call].append(arg)
+    sizes = {s.sid: len(s.data or b"") for s in ctx.streams}
+    datas = {s.sid: (s.data or b"") for s in ctx.streams}
     return per, sizes, datas, exit_
 
 
@@ -247,6 +272,8 @@ def fault_space(spec, how, dense_limit=3000, stride=7):
             plans.append([{"kind": "tell_err", "stream": sid, "at": k}])
             plans.append([{"kind": "tell_cancel", "stream": sid, "at": k}])
     for sid in sorted(sizes):
+        if how in ("clone", "clone_module") and sid == 0:
+            continue  # the scratch buffer's content is produced by the library's own writer
         data = datas[sid]
         offs = set(chunkio.boundaries(data))
         for b in list(offs):
@@ -257,7 +284,17 @@ def fault_space(spec, how, dense_limit=3000, stride=7):
             offs.update(range(0, len(data), stride))
         for o in sorted(x for x in offs if 0 <= x < len(data)):
             plans.append([{"kind": "trunc", "stream": sid, "at": o}])
-    if how != "file":
+    if how in ("file", "str", "path"):
+        # the stream is a pipe: every seek/tell fails with ESPIPE, seekable() is False
+        plans.append([{"kind": "nonseekable", "stream": 0}])
+        nreads0 = len(per.get(0, {}).get("read", ()))
+        for k in sorted({0, 1, 2, nreads0 // 2, max(nreads0 - 1, 0)}):
+            plans.append([{"kind": "nonseekable", "stream": 0}, {"kind": "read_eio", "stream": 0, "at": k}])
+            plans.append([{"kind": "nonseekable", "stream": 0}, {"kind": "read_cancel", "stream": 0, "at": k}])
+        for sid in sorted(per):
+            if sid > 0:
+                plans.append([{"kind": "nonseekable", "stream": sid}])
+    if how in ("str", "path"):
         plans.append([{"kind": "open_enoent"}])
         plans.append([{"kind": "open_eacces"}])
         plans.append([{"kind": "close_err", "stream": 0, "at": 0}])
@@ -345,6 +382,18 @@ def plan(tier, seed):
         units.append({"kind": "sweep", "file": spec, "how": "path", "flag0": False, "calls_only": True, "strict_read": True})
     for spec in gen_specs(tier, seed):
         units.append({"kind": "sweep", "file": spec, "how": "path", "flag0": True, "calls_only": True, "sample": 400})
+    # loads that happen inside Container.clone() / Module.clone(): faults on the scratch buffer
+    clone_files = [s_ for s_ in by_size if s_["name"].endswith(".sunvox")] + [s_ for s_ in by_size if "metamodule" in s_["name"] or "sampler" in s_["name"]]
+    clone_synths = by_size[:6] + [s_ for s_ in by_size if "metamodule" in s_["name"] or "sampler" in s_["name"]]
+    if tier != "quick":
+        clone_files, clone_synths = by_size, [s_ for s_ in by_size if s_["name"].endswith(".sunsynth")]
+    for spec in clone_files:
+        for flag0 in (True, False):
+            units.append({"kind": "sweep", "file": spec, "how": "clone", "flag0": flag0})
+    for spec in clone_synths:
+        if spec["name"].endswith(".sunsynth"):
+            units.append({"kind": "sweep", "file": spec, "how": "clone_module", "flag0": True})
+            units.append({"kind": "sweep", "file": spec, "how": "clone_module", "flag0": False})
     nflip = 40 if tier == "quick" else 400
     for spec in fx:
         units.append({"kind": "flips", "file": spec, "count": nflip, "seed": seed})
@@ -367,7 +416,7 @@ def generate(seed, i, tier="quick"):
         x = r.random()
         if x < 0.6:
             spec = r.choice(fx)
-            how = r.choice(("file", "str", "path"))
+            how = r.choice(("file", "str", "path", "file", "str", "path", "clone", "clone_module"))
             faults = []
             if r.random() < 0.75:
                 plans = _cached_space(spec, how)
@@ -389,9 +438,10 @@ _space_cache = {}
 
 
 def _cached_space(spec, how):
-    key = (files.spec_label(spec), repr(spec.get("perturb")), how if how == "file" else "path")
+    hk = how if how in ("file", "clone", "clone_module") else "path"
+    key = (files.spec_label(spec), repr(spec.get("perturb")), hk)
     if key not in _space_cache:
-        _space_cache[key] = fault_space(spec, "file" if how == "file" else "path")
+        _space_cache[key] = fault_space(spec, hk)
     sp = _space_cache[key]
     return sp
 
